@@ -268,6 +268,77 @@ def check_chunk(spec, ctx):
     ctx.eq("whole_chromosome_sequence", str(lw.extract_sequence()), rm.seq_image(G, pos, L["strand"]))
 
 
+# ------------------------------------------------------------------------------------ requests outside the window
+
+
+def check_overhang(spec, ctx):
+    """a window (chunk) Parent that carries NO sequence cannot refuse an out-of-window child at construction time; the refusal has to
+    happen when the child is lifted: a child reaching past the placement must raise, one inside must lift exactly"""
+    _case[0] += 1
+    tag = "o%d_" % _case[0]
+    pl = spec["placement"]
+    plen = sum(b[1] - b[0] for b in pl["blocks"])
+    ppos = rm.positions(pl["blocks"], pl["strand"])
+    levels = [("chromosome", None), ("sequence_chunk", pl)]
+    top = Parent(id=tag + "chr", sequence_type="chromosome", location=mkloc(pl))
+    chunk = Parent(id=tag + "win", sequence_type="sequence_chunk", parent=top)
+    if spec.get("nested"):
+        # a second window inside the first one
+        a2, b2 = spec["nested"]
+        inner_pl = {"blocks": [[a2, b2]], "strand": "+", "order": [0], "shift": 0, "compound": False}
+        chunk = Parent(id=tag + "win2", sequence_type="contig", parent=Parent(id=tag + "win", sequence_type="sequence_chunk", location=mkloc(inner_pl), parent=top))
+        ppos = ppos[a2:b2]
+        plen = b2 - a2
+        ctx.label("nested_windows")
+    C = spec["child"]
+    cb = rm.sorted_blocks(C["blocks"])
+    child = mkloc(C, chunk)
+    hi = max(b[1] for b in cb)
+    inside = hi <= plen
+    ctx.nt("child_overhangs_window" if not inside else "child_inside_window")
+    if not inside and sum(b[1] - b[0] for b in cb) <= plen:
+        ctx.label("overhanging_child_not_longer_than_window")
+    try:
+        lifted = child.lift_over_to_first_ancestor_of_type("chromosome")
+    except (BioCantorException, ValueError):
+        ctx.true("inside_child_refused", not inside, {"child": cb, "window_length": plen})
+        ctx.refuse("outside_window")
+        return
+    if not inside:
+        ctx.fail("overhanging_child_answered", {"child": cb, "window_length": plen, "got": repr(lifted)[:80]})
+        return
+    cpos = rm.positions(C["blocks"], C["strand"])
+    ctx.eq("lifted_positions", rm.loc_positions(lifted), [ppos[i] for i in cpos])
+    ctx.eq("lifted_strand", rm.loc_strand(lifted), rm.compose(C["strand"], pl["strand"]))
+
+
+@st.composite
+def strat_overhang(draw, tier="quick"):
+    pl = draw(S.location_spec(max_k=3, allow_overlap=False, allow_empty=False, max_len=10, shift_prob=0, strands=["+", "+", "-"], max_start=40))
+    plen = sum(b[1] - b[0] for b in pl["blocks"])
+    sp = {"placement": pl}
+    if plen >= 6 and draw(st.integers(0, 3)) == 0:
+        a2 = draw(st.integers(0, plen - 4))
+        sp["nested"] = [a2, draw(st.integers(a2 + 3, plen))]
+        plen = sp["nested"][1] - sp["nested"][0]
+    # child: mostly reaching past the end by a little, its own length often not larger than the window
+    k = draw(st.sampled_from([1, 1, 2]))
+    mode = draw(st.sampled_from(["inside", "over", "over", "beyond"]))
+    if mode == "inside":
+        e = draw(st.integers(1, plen))
+    elif mode == "over":
+        e = plen + draw(st.integers(1, 4))
+    else:
+        e = plen + draw(st.integers(5, 12))
+    s_ = draw(st.integers(max(0, e - plen - 2), e - 1))
+    blocks = [[s_, e]]
+    if k == 2 and e - s_ >= 3:
+        m = draw(st.integers(s_ + 1, e - 2))
+        blocks = [[s_, m], [m + 1, e]]
+    sp["child"] = {"blocks": blocks, "strand": draw(st.sampled_from(["+", "-"])), "order": list(range(len(blocks))), "shift": 0, "compound": draw(st.booleans())}
+    return sp
+
+
 # ------------------------------------------------------------------------------------ strategies
 
 
@@ -330,6 +401,9 @@ PROP = Prop(
         Leg("hierarchy", check_hierarchy, strategy=strat_hierarchy, n_quick=700, n_thorough=6000, shards_quick=4,
             must_hit=["depth>=3", "two_minus_levels", "block_split_across_parent_blocks", "no_ancestor", "lift_by_sequence", "interval_object_on_hierarchy"],
             rule="hierarchies of depth 1..3 (4 levels incl. root), each level placed on its parent by a 1..3-block location on either strand, sequences extracted from the root; child locations of 1..3 blocks; every ancestor as target by type and by sequence identity; absent ancestors"),
+        Leg("overhang", check_overhang, strategy=strat_overhang, n_quick=500, n_thorough=5000, shards_quick=4,
+            must_hit=["child_overhangs_window", "child_inside_window", "overhanging_child_not_longer_than_window", "nested_windows"],
+            rule="sequence-less window parents (1..3-block placement on either strand, optionally a second window nested inside) x child locations inside the window, reaching 1..4 bases past its end, or far beyond it (the child's own length often not larger than the window): lifting must refuse every child that leaves the window and lift the others exactly"),
         Leg("chunk", check_chunk, strategy=strat_chunk, n_quick=1200, n_thorough=10000, shards_quick=4,
             must_hit=["chunk_cuts_block", "chunk_misses", "chunk_to_chunk", "minus", "minus_chunk", "chunk_to_chunk_with_minus_chunk", "overlapping_blocks"],
             rule="chromosome locations x chunk windows x chunk strands (a chunk may be the reverse complement of its window) through seq_chunk_to_parent and liftover_location_to_seq_chunk_parent, lifted down, back up, and on to a second chunk of either strand"),
